@@ -140,6 +140,17 @@ def run_shard(sh, ctx):
 			args += [G.items[i]['path'] for i in idx]
 		elif channel == 'listfile':
 			args += ['-l', G.listfile(idx, f'l{rnd}.txt'), '--ldir', G.dir]
+			if rnd % 2 == 0:
+				# files with the same relative names and OTHER genomes in the working directory: list entries belong to --ldir
+				run_cwd = base / 'decoy_cwd'
+				run_cwd.mkdir(exist_ok=True)
+				from vf.oracles.fasta import write_fasta as _wfd
+				for i_ in idx:
+					pd = run_cwd / G.items[i_]['name']
+					pd.parent.mkdir(parents=True, exist_ok=True)
+					if not pd.exists():
+						_wfd(pd, [bytes(rng.choice(b'ACGT') for _ in range(rng.randint(300, 900)))], gz=G.items[i_]['name'].endswith('.gz'))
+				ctx.count('listfile_runs_with_same_named_decoys_in_cwd')
 		else:
 			if style == 'equidistant':
 				# designed signatures: every pair at the same distance -> every merge is a tie
@@ -163,7 +174,7 @@ def run_shard(sh, ctx):
 		if rnd % 3 == 1:
 			cf, *_ = clidrv.run_inproc(['tree', '--no-progress', '-k', 3, '-p', 'A', G.items[0]['path'], G.items[-1]['path']])   # rejected parameters
 			ctx.count('failing_commands_interleaved', int(cf != 0))
-		code, so, se, exc = clidrv.run_inproc(args)
+		code, so, se, exc = clidrv.run_inproc(args, cwd=locals().get('run_cwd') if channel == 'listfile' and rnd % 2 == 0 else None)
 		m = len(idx)
 		if sigs_override is not None:
 			from vf.oracles import jaccard as J
